@@ -111,7 +111,7 @@ func (r *runner) runCorrChild(dir string, replay []byte) {
 		c2.Stderr = &e2
 		if c2.Run() != nil {
 			attributed = true
-			r.violate("the server process does not panic", "child-crash", &cs, "the process running this case died:\n"+panicHead(e2.Bytes()))
+			r.violate("the server process does not panic", "case-crash", &cs, "the process running this case died:\n"+panicHead(e2.Bytes()))
 		}
 	}
 	if !attributed {
